@@ -136,7 +136,9 @@ fn curve_ops(cat: &mut Cat, name: &str, w: Cub, s: f64) {
     run(cat, "find_self_intersection_point", e, &format!("{} accuracy={:?}", inp, 0.01 * s), move || { if let Some((a, b)) = find_self_intersection_point(&lib_curve(&w), 0.01 * s) { f1("t1", a)?; f1("t2", b)?; } Ok(()) });
     run(cat, "characteristics", e, inp, move || { let _ = lib_curve(&w).characteristics(); Ok(()) });
     run(cat, "features", e, &format!("{} accuracy={:?}", inp, 0.01 * s), move || match lib_curve(&w).features(0.01 * s) { CurveFeatures::SingleInflectionPoint(t) => f1("inflection", t), CurveFeatures::DoubleInflectionPoint(a, b) => { f1("inflection 1", a)?; f1("inflection 2", b) } CurveFeatures::Loop(a, b) => { f1("loop t1", a)?; f1("loop t2", b) } _ => Ok(()) });
-    for (a, b, sname) in [(0.0, 0.0, "section_control_points_0_0"), (0.0, 1.0, "section_control_points_0_1"), (0.5, 0.5, "section_control_points_0.5_0.5"), (1.0, 1.0, "section_control_points_1_1"), (0.25, 1.0, "section_control_points_0.25_1")] {
+    for (a, b, sname) in [(0.0, 0.0, "section_control_points_0_0"), (0.0, 1.0, "section_control_points_0_1"), (0.5, 0.5, "section_control_points_0.5_0.5"), (1.0, 1.0, "section_control_points_1_1"), (0.25, 1.0, "section_control_points_0.25_1"),
+                          // sections that start at the end of the curve and run backwards or beyond it: finite parameters, so finite input
+                          (1.0, 0.5, "section_control_points_1_0.5"), (1.0, 0.0, "section_control_points_1_0"), (1.0, 1.5, "section_control_points_1_1.5")] {
         run(cat, sname, e, &format!("{} section({}, {})", inp, a, b), move || {
             let c = lib_curve(&w);
             let sec = c.section(a, b);
